@@ -1486,6 +1486,12 @@ class SymMode(TorchDispatchMode):
                 st.frame_violations.append(FrameViolation(str(func), explore._site(), st.protected[k]))
 
         symbolic_in = any(not st.is_concrete(t) for t in in_tensors)
+        if (not symbolic_in and name == "_to_copy" and in_tensors and kwargs.get("dtype") == torch.float64
+                and in_tensors[0].dtype in (torch.float32, torch.float16, torch.bfloat16)):
+            # widening a concrete single-precision tensor: read its values as the reals they denote *before* the
+            # conversion (a float64 tensor holding float32-rounded values would be taken literally afterwards)
+            st._flat(in_tensors[0])
+            symbolic_in = True
         # make sure shadows of inputs exist BEFORE the real op mutates anything in place
         if symbolic_in:  # (an in-place operation among concrete tensors stays concrete)
             for t in in_tensors:
